@@ -145,7 +145,9 @@ def optimize_mps(mps: Mps, mpo: Union[Mpo, StackedMpo], omega: float = None) -> 
         )
         # check if convergence
         if isweep > 0 and percent == 0:
-            v1, v2 = sorted(macro_iteration_result)[:2]
+            # compare the last two sweeps: an energy recorded before the bond dimension was reduced
+            # must not certify a later sweep
+            v1, v2 = macro_iteration_result[-2:]
             if np.allclose(
                 v1, v2, rtol=mps.optimize_config.e_rtol, atol=mps.optimize_config.e_atol
             ):
